@@ -29,6 +29,12 @@ def to_code_data(code: CodeType) -> CodeData:
     else:
         posonlyargcount = 0
 
+    # The number of locals is recreated from the varnames when going back to code
+    if code.co_nlocals != len(code.co_varnames):
+        raise NotImplementedError(
+            "Only support code where co_nlocals is the number of co_varnames"
+        )
+
     line_mapping = to_line_mapping(code)
 
     line_mapping.modify_line_offsets(code.co_firstlineno)
